@@ -50,14 +50,14 @@ class Type(object):
         if has_extension_marker:
             return
 
-        if minimum is None:
-            minimum = 'MIN'
+        # MIN and MAX are the lowest and highest values of the parent
+        # type, so for a constraint on a type reference the bound of
+        # the referenced type stays in force.
+        if minimum is not None and minimum != 'MIN':
+            self.minimum = minimum
 
-        if maximum is None:
-            maximum = 'MAX'
-
-        self.minimum = minimum
-        self.maximum = maximum
+        if maximum is not None and maximum != 'MAX':
+            self.maximum = maximum
 
     def set_size_range(self, minimum, maximum, has_extension_marker):
         self.set_range(minimum, maximum, has_extension_marker)
